@@ -153,6 +153,10 @@ macro_rules! cmp {
             (A::String(a), A::String(b)) => binary_op(a.as_ref(), b.as_ref(), |a, b| a $op b),
 
             (A::Date(a), A::Date(b)) => binary_op(a.as_ref(), b.as_ref(), |a, b| a $op b),
+            (A::Timestamp(a), A::Timestamp(b)) => binary_op(a.as_ref(), b.as_ref(), |a, b| a $op b),
+            (A::TimestampTz(a), A::TimestampTz(b)) => binary_op(a.as_ref(), b.as_ref(), |a, b| a $op b),
+            (A::Interval(a), A::Interval(b)) => binary_op(a.as_ref(), b.as_ref(), |a, b| a $op b),
+            (A::Blob(a), A::Blob(b)) => binary_op(a.as_ref(), b.as_ref(), |a, b| a $op b),
 
             _ => return Err(ConvertError::NoBinaryOp(stringify!($name).into(), self.type_string(), other.type_string())),
         })))
